@@ -149,10 +149,16 @@ ElemClass(elem) ==
     [] elem = "ElementTri15ParamPlate" -> "Plate15"
     [] OTHER -> "none"
 
-\* tolerances (per unit of magnitude of the compared traces)
-TolGeom   == FxTol(36)
-TolGlobal == FxTol(20)                  \* ElementGlobal families (inverted Vandermonde matrix in global coordinates,
-                                        \* degree up to 5: conditioning grows like |coordinate|^degree)
+\* tolerances (per unit of magnitude of the compared traces).  Calibration (quick seeds 0..4, all mesh classes incl.
+\* operation histories, element reuse, curved meshes):
+\*   reference-mapped elements: worst 1.7e-14 straight (TriP4, Delaunay), 3.8e-14 curved (Hex2, Newton inverse)
+\*                                                        -> TolGeom   = 2^-30 = 9.3e-10   (factor 2.5e4)
+\*   ElementGlobal (inverted Vandermonde matrix in global coordinates, degree <= 5): worst 5.0e-10 (Argyris on a
+\*   twice adaptively refined mesh)                       -> TolGlobal = 2^-17 = 7.6e-6    (factor 1.5e4)
+\* (2^-36 / 2^-20 before: factors 4e2 / 1.9e3, too close to LAPACK / NumPy build differences).  A non-conforming
+\* pair of traces differs by O(0.1 .. 1), so both tolerances remain decisive.
+TolGeom   == FxTol(30)
+TolGlobal == FxTol(17)
 TolFor(tolclass) == IF tolclass = "global" THEN TolGlobal ELSE TolGeom
 
 \* facet geometry from integer vertex coordinates: tangent vectors and (unnormalised) normal
